@@ -7,11 +7,13 @@ namespace Cache
 
 /-! ### metadata refresh (`generateMetaUpdates`) -/
 
-theorem Effect.lc_meta {t : Target} {n : Noti} {key : Path} {r : Res × Target × Option Noti}
-    (he : Effect t n key r) (hm : isMetaKey key = true) (hp : r.1 ≠ .panic) : LcSame t r.2.1 := by
+theorem Effect.lc_meta {cfg : Cfg} {t : Target} {n : Noti} {u : Upd} {key : Path}
+    {r : Res × Target × Option Noti}
+    (he : Effect cfg t n u key r) (hm : isMetaKey key = true) (hp : r.1 ≠ .panic) : LcSame t r.2.1 := by
   cases he with
   | rejected _ _ _ _ _ _ h4 => exact h4
-  | replaced _ _ _ _ _ _ _ _ _ h4 _ => exact h4
+  | replaced _ _ _ _ _ _ _ _ h4 => exact h4
+  | suppressed _ _ _ _ _ _ _ _ _ _ h4 => exact h4
   | added t' _ _ _ _ _ m1 m2 m3 => exact ⟨by simpa [hm] using m1, by simpa [hm] using m2, m3⟩
   | panicOld => exact absurd rfl hp
 
